@@ -478,6 +478,19 @@ func (o *compositeOracle) onStep(e *Engine, st *StepRec) *Violation {
 		if !w.sess[s].joined {
 			continue
 		}
+		if w.sess[s].ended {
+			// killed while silent: what else was routed to it while the router was ending it
+			// (testaments and meta events of sessions killed by the same request, in the
+			// router's order) is not determined; only its own end was asserted
+			delete(w.backlog, s)
+			delete(w.unsure, s)
+			if st.Recv != nil {
+				delete(st.Recv, s)
+			}
+			delete(exp, s)
+			w.st.Label("silent_session_ended_before_reading_again")
+			continue
+		}
 		got := st.Recv[s]
 		cp := w.queueCap(s)
 		bl := w.backlog[s]
